@@ -736,6 +736,33 @@ func runC10(c *Ctx) {
 					}
 				}
 				c.check(okDef, "R2", "default REALPATH", p.Pos(body.Instrs[0].Pos()), "cleanPathWithBase(startDirectory, path)", "the built-in REALPATH answer is not cleaned relative to the start directory")
+				// R16: what a custom resolver answers is the answer — its result is consumed, not overwritten by the
+				// built-in cleaning
+				nRes := 0
+				for _, b := range worker.Blocks {
+					if !region[b] {
+						continue
+					}
+					for _, in := range b.Instrs {
+						call, ok := in.(*ssa.Call)
+						if !ok || !call.Call.IsInvoke() || call.Call.Method.Name() != "RealPath" {
+							continue
+						}
+						nRes++
+						var res ssa.Value = call
+						if call.Call.Signature().Results().Len() > 1 {
+							res = nil
+							for _, r := range *call.Referrers() {
+								if ex, ok := r.(*ssa.Extract); ok && ex.Index == 0 {
+									res = ex
+								}
+							}
+						}
+						c.check(res != nil && valueLive(res, map[ssa.Value]bool{}), "R16", fmt.Sprintf("the answer of RealPath resolver #%d reaches the reply", nRes), p.Pos(call.Pos()), "consumed",
+							"the path a custom RealPath resolver returns is consumed by nothing: the client gets the built-in answer instead of the handler's")
+					}
+				}
+				c.okT("R16", "custom RealPath resolvers examined", "?", fmt.Sprintf("%d", nRes))
 			}
 		}
 	}
@@ -1058,6 +1085,7 @@ func runC10(c *Ctx) {
 	checkCloseErrorsKept(c, "R13")
 	// R14 (shared with C01.R20): what a handler's ReadAt returned is what is sent — data while there is data, EOF at the end, the error otherwise
 	c.withOnlyKeys("R20", "R14", []string{"fileget", "fileputget"}, func() { checkReadReplyTruthTable(c, "R20") })
+	checkHandlerCountsBounded(c, "R15")
 }
 
 // checkRepliesFixedWhenHandlerReturns (R11): a reply is marshalled by the packet manager's controller after it was
@@ -1560,4 +1588,39 @@ func checkStartDirectoryIsTheBase(c *Ctx, rule string) {
 		})
 	}
 	c.check(n >= 8, rule, "path-cleaning calls in the request server", "?", fmt.Sprintf("%d calls", n), fmt.Sprintf("only %d calls of requestFromPacket/cleanPathWithBase found in RequestServer's methods", n))
+}
+
+// checkHandlerCountsBounded (C10.R15): a handler answers through counts — ListAt and ReadAt say how many entries or
+// bytes they produced.  In the functions that take those counts, every index and slice expression is proved in
+// range by the prover (facts from the dominating branches): an empty listing in reply to STAT is the handler's way
+// of saying "no such file" and must come out as that status, not as an index out of range in the worker.
+func checkHandlerCountsBounded(c *Ctx, rule string) {
+	p := c.P
+	w := newZWorld(p)
+	ord := map[string]int{}
+	lifted := map[*ssa.Function][]zreq{}
+	n := 0
+	for _, fn := range p.LibFuncs() {
+		if outermost(fn).Package() != p.Sftp {
+			continue
+		}
+		takes := false
+		eachInstr(fn, func(in ssa.Instruction) {
+			if cc := callOf(in); cc != nil && cc.IsInvoke() && (cc.Method.Name() == "ListAt" || cc.Method.Name() == "ReadAt") {
+				takes = true
+			}
+		})
+		if !takes || isClientSide(fn) {
+			continue
+		}
+		z := w.get(fn)
+		for _, o := range z.obligationsOf() {
+			if o.Kind != "slice" && o.Kind != "index" {
+				continue
+			}
+			n++
+			decideObl(c, w, z, o, rule, oblKey(o, fn, ord), lifted)
+		}
+	}
+	c.check(n >= 2, rule, "index and slice expressions beside handler counts", "?", fmt.Sprintf("%d", n), fmt.Sprintf("only %d found", n))
 }
